@@ -291,13 +291,12 @@ fn compound_command_program_header(
     root: &'static Node, header: &'static Node,
 ) -> impl Fn(&[u8]) -> ParseResult<(&'static Node, Option<&'static Node>)> {
     move |mut input: &[u8]| {
-        let mut header = header;
-
         // Check if the command starts with a colon.
         let (i1, root_command) = optional(header_separator)(input)?;
 
         // If true, we start with the root node.
-        let mut node = if root_command.is_some() { root } else { header };
+        let mut header = if root_command.is_some() { root } else { header };
+        let mut node = header;
 
         let (i2, res) = program_mnemonic(i1)?;
         let name = str::from_utf8(res)?;
